@@ -55,7 +55,11 @@ type htiming struct{ interval, timeout, grace time.Duration }
 
 var (
 	hFast = htiming{40 * time.Millisecond, 100 * time.Millisecond, 10 * time.Millisecond}
-	hSlow = htiming{300 * time.Millisecond, 500 * time.Millisecond, 100 * time.Millisecond}
+	hSlow = []htiming{
+		{150 * time.Millisecond, 300 * time.Millisecond, 40 * time.Millisecond},
+		{400 * time.Millisecond, 600 * time.Millisecond, 120 * time.Millisecond},
+		{1000 * time.Millisecond, 1200 * time.Millisecond, 300 * time.Millisecond},
+	}
 )
 
 // ---- scripted backend: one address, three listener shapes ----
@@ -550,13 +554,13 @@ func runHealth(cfg *hx.RunCfg) error {
 		workers = 128
 	}
 	results := make([]hresult, len(cases))
-	var next, slowRuns, timingFlakes atomic.Int64
-	// re-runs with the slow profile are capped: a real defect makes far more cases look wrong than
-	// the cap (and is then reported from the fast observations), scheduling hiccups stay below it
-	maxSlowRuns := int64(16)
-	if int64(len(cases)/100) > maxSlowRuns {
-		maxSlowRuns = int64(len(cases) / 100)
-	}
+	var next, slowRuns, timingFlakes, reproduced atomic.Int64
+	// An observation that looks wrong is reported only if it reproduces: the case is re-run with
+	// three increasingly slow timing profiles and the first run that looks right is taken (a
+	// scheduling hiccup does not survive that; a defect of the monitor is deterministic and fails
+	// every time).  Once a handful of cases have reproduced through all profiles the defect is
+	// established and further wrong-looking cases are reported as observed, to bound the run time.
+	const establishedAfter = 5
 	fast := hFast
 	if cfg.Tier == "thorough" {
 		// 128 monitors at once: wider margins
@@ -578,12 +582,24 @@ func runHealth(cfg *hx.RunCfg) error {
 					// once more: a port may have been taken between two listens
 					r = runHealthCase(cases[i], ip, fast)
 				}
-				if r.invalid == "" && !sameEvents(r.events, expectedCallbacks(cases[i])) && slowRuns.Add(1) <= maxSlowRuns {
-					if r2 := runHealthCase(cases[i], ip, hSlow); r2.invalid == "" {
-						if sameEvents(r2.events, expectedCallbacks(cases[i])) {
-							timingFlakes.Add(1)
+				if r.invalid == "" && !sameEvents(r.events, expectedCallbacks(cases[i])) && reproduced.Load() < establishedAfter {
+					slowRuns.Add(1)
+					absorbed := false
+					for _, tm := range hSlow {
+						r2 := runHealthCase(cases[i], ip, tm)
+						if r2.invalid != "" {
+							continue
 						}
 						r = r2
+						if sameEvents(r2.events, expectedCallbacks(cases[i])) {
+							absorbed = true
+							break
+						}
+					}
+					if absorbed {
+						timingFlakes.Add(1)
+					} else {
+						reproduced.Add(1)
 					}
 				}
 				results[i] = r
@@ -683,5 +699,6 @@ func runHealth(cfg *hx.RunCfg) error {
 	cfg.St["timing_ms"] = map[string]any{"interval": hFast.interval.Milliseconds(), "timeout": hFast.timeout.Milliseconds(), "grace": hFast.grace.Milliseconds()}
 	cfg.St["rerun_slow"] = slowRuns.Load()
 	cfg.St["timing_flakes_absorbed"] = timingFlakes.Load()
+	cfg.St["reproduced_through_all_profiles"] = reproduced.Load()
 	return nil
 }
